@@ -9,6 +9,7 @@ import re
 from .values import *
 from .core import (Unsupported, RustPanic, PathEnd, is_sym, t_eq, t_not, t_and, t_or, t_in, t_bytes_eq)
 from .interp import BoolT, strip_generics, base_type, norm_ty
+from .parser import split_top
 
 MODELS = {}
 
@@ -725,13 +726,21 @@ def m_unwrap_or_default(it, argv, text):
         return v.f[0]
     t = text.split('::unwrap_or_default')[0]
     m = re.search(r'<(.*)>', t)
-    inner = base_type(m.group(1)) if m else ''
+    inner = base_type(split_top(m.group(1))[0]) if m else ''
     if inner in ('String', 'PathBuf'):
         return StrV(())
-    if inner == 'Vec':
+    if inner == 'Vec' or ('Vec<' in text.split('::unwrap_or_default')[0] and v.ename == 'Result'):
         return VecV(())
-    if inner in ('usize', 'u64'):
+    if inner in ('usize', 'u64', 'u32', 'u16', 'u8', 'i8', 'i16', 'i32', 'i64', 'isize', 'u128', 'i128'):
         return 0
+    if inner == 'bool':
+        return False
+    if inner in ('HashSet',):
+        return MapV((), True)
+    if inner in ('HashMap',):
+        return MapV((), False)
+    if inner in ('Option',):
+        return NONE
     raise Unsupported("unwrap_or_default for " + text)
 
 
